@@ -56,7 +56,45 @@ def catalogue(tier, seed):
                     # first): what is on disk afterwards is the file whose prefixes are enumerated
                     case["resave_after"] = rng.randrange(0, len(adds))
                 cases.append(case)
+    # round 11 (S105): files above 1 MiB (paths that only exist for large tables: direct reads,
+    # chunked copies, memory maps). Their crash points are sampled, not enumerated: both ends of
+    # the file byte by byte, every member boundary, powers of two and a seeded random sample.
+    big = [("linear", (40000, 8)), ("log16", (70000, 8)), ("hh", (4000, 4, 64))]
+    if tier == "thorough":
+        big += [("log8", (140000, 8)), ("linear", (300000, 1)), ("hll", (16,))]
+    for fam, sh in big:
+        cfg = {"family": fam}
+        if fam == "hll":
+            cfg.update(p=sh[0], seed=0)
+        elif fam == "hh":
+            cfg.update(width=sh[0], depth=sh[1], mkl=sh[2], phi=None)
+        else:
+            cfg.update(width=sh[0], depth=sh[1])
+            if fam == "log16":
+                cfg.update(max_count=(1 << 32) - 1, num_reserved=1023)
+            if fam == "log8":
+                cfg.update(max_count=(1 << 32) - 1, num_reserved=15)
+        pool = base_pool(rng, cfg.get("mkl")) + sig_keys
+        adds = [[hexk(rng.choice(pool)), rng.choice([1, 2, 5, 1000])] for _ in range(rng.randrange(5, 30))]
+        cases.append({"family": fam, "cfg": cfg, "adds": adds, "sampled": True})
     return cases
+
+
+def sampled_offsets(case, data, seed):
+    """crash points tried for a large file (deterministic)"""
+    n = len(data)
+    rng = run_rng("C20", "D-offsets", seed, n)
+    offs = set(range(0, min(n, 160))) | set(range(max(0, n - 400), n))
+    for sig in (b"PK\x03\x04", b"PK\x01\x02", b"PK\x05\x06"):
+        at = data.find(sig)
+        while at != -1:
+            offs.update(o for o in range(at - 2, at + 90) if 0 <= o < n)
+            at = data.find(sig, at + 1)
+    for k in range(8, 24):
+        offs.update(o for o in ((1 << k) - 1, 1 << k, (1 << k) + 1, 3 << (k - 1)) if o < n)
+    for _ in range(300):
+        offs.add(rng.randrange(n))
+    return sorted(offs)
 
 
 def build_bytes(case):
@@ -132,7 +170,7 @@ def try_load(fam, route, path, shared):
 
 def _task(idx):
     """one task = one (case, block of offsets)"""
-    ci, lo, hi = _TASKS[idx]
+    ci, lo, hi, offs = _TASKS[idx]
     case = _CASES[ci]
     data, want_state, want_params = _FILES[ci]
     fam = case["family"]
@@ -141,11 +179,11 @@ def _task(idx):
     attempts = 0
     viol = None
     shared_attempts = 0
-    for off in range(lo, hi):
+    for off in (range(lo, hi) if offs is None else offs):
         with open(path, "wb") as f:
             f.write(data[:off])
         for route in loaders(fam):
-            sh_opts = (False, True) if off % 7 == 3 else (False,)
+            sh_opts = (False, True) if (off % 7 == 3 or offs is not None) else (False,)
             for shared in sh_opts:
                 attempts += 1
                 shared_attempts += 1 if shared else 0
@@ -158,7 +196,9 @@ def _task(idx):
     os.rmdir(d)
     res = {"i": idx, "events": attempts, "counters": {f"prefix_load_attempts:{fam}": attempts, "shared_memory_load_attempts": shared_attempts},
            "sig": f"t{ci}:{lo}", "nontrivial": False, "digest": f"{ci}:{lo}:{hi}:{viol is None}",
-           "extra_nontrivial": [f"{ci}:{o}" for o in range(max(lo, 1), hi)]}
+           "extra_nontrivial": [f"{ci}:{o}" for o in (range(max(lo, 1), hi) if offs is None else offs) if o > 0]}
+    if offs is not None:
+        res["counters"]["sampled_crash_points_of_files_over_1MiB"] = len(offs)
     if lo == 0:
         # the complete file must load to the saved sketch through every route
         with open(path if False else os.path.join(scratch_dir(), f"full-{os.getpid()}-{ci}.npz"), "wb") as f:
@@ -179,7 +219,8 @@ def _task(idx):
         os.unlink(full)
         res["counters"]["complete_file_loads"] = 2 * len(loaders(fam))
         res["sample"] = {"family": fam, "cfg": case["cfg"], "n_adds": len(case["adds"]), "file_bytes": len(data),
-                         "offsets": f"0..{len(data)-1} (all)", "loaders": sorted(loaders(fam))}
+                         "offsets": f"0..{len(data)-1} (all)" if not case.get("sampled") else "sampled (both ends, member boundaries, powers of two, seeded random)",
+                         "loaders": sorted(loaders(fam))}
     if viol is not None:
         res["violation"] = viol
     return res
@@ -224,9 +265,18 @@ def run_check(prop, tier, seed, args):
         raise HarnessError("save() bytes are not reproducible")
     block = 64
     _TASKS = []
+    n_sampled = 0
     for ci, (data, _, _) in enumerate(_FILES):
+        if _CASES[ci].get("sampled"):
+            if len(data) <= (1 << 20) and _CASES[ci]["family"] != "hll":
+                raise HarnessError(f"large case {ci} produced only {len(data)} bytes")
+            offs = sampled_offsets(_CASES[ci], data, seed)
+            n_sampled += len(offs)
+            for j in range(0, len(offs), 24):
+                _TASKS.append((ci, offs[j], offs[j] + 1, offs[j:j + 24]))
+            continue
         for lo in range(0, len(data), block):
-            _TASKS.append((ci, lo, min(lo + block, len(data))))
+            _TASKS.append((ci, lo, min(lo + block, len(data)), None))
     notes = 0
     note_states = 0
     for ci in range(0, len(_CASES), max(1, len(_CASES) // 10)):
@@ -277,17 +327,20 @@ def run_check(prop, tier, seed, args):
         print(f"VIOLATION property=C20 replay={path}")
         print(f"  invariant={v['inv']} detail: {v['detail']}")
         rc = 1
-    total_offsets = sum(len(f[0]) for f in _FILES)
+    total_offsets = sum(len(f[0]) for c, f in zip(_CASES, _FILES) if not c.get("sampled"))
     complete = reason is None and consumed == len(_TASKS)
     write_evidence("C20", tier, seed, "fault_enumeration", agg, time.time() - t0,
                    "one case = one (saved file, truncation offset) crash state offered to every applicable loader; the space "
-                   "is all offsets 0..len-1 of every file in the catalogue (5 classes x shapes x contents); distinct non-trivial "
+                   "is all offsets 0..len-1 of every small file in the catalogue (5 classes x shapes x contents), enumerated "
+                   "completely, plus sampled offsets (both ends byte by byte, member boundaries, powers of two, seeded random) "
+                   "of files above 1 MiB through every loader with and without shared_memory; distinct non-trivial "
                    "= distinct (file, offset>0) prefixes",
                    ["sketchnu save()/load() of all five classes (unmodified)", "numpy.savez / numpy.load / zipfile", "real files on tmpfs"],
                    ["zipfile member timestamps read the virtual clock (zipfile.time seam) so that saved bytes are reproducible",
                     "crash = truncation of the final byte sequence at an arbitrary offset (the property's fault model)"],
                    ["fault model is the statement's: strict prefixes of the final file; intermediate write-log states are reported as NOTE only"],
                    extra={"files": len(_FILES), "total_offsets_enumerated": total_offsets, "file_sizes": sorted(len(f[0]) for f in _FILES),
+                          "large_files_sampled": sum(1 for c in _CASES if c.get("sampled")), "sampled_offsets_of_large_files": n_sampled,
                           "write_log_states_examined": note_states, "write_log_states_that_load(NOTE)": notes,
                           "stop_reason": reason or "completed", "tree_hash": boot.TREE_HASH},
                    exhaustive=complete)
